@@ -998,7 +998,7 @@ def scan_for_metadata(a: ast.AST, callback: Callable[[ast.arg], None]):
     metadata_finder().visit(a)
 
 
-g_legal_capture_types = (str, int, float, bool, complex, str, bytes, ModuleType)
+g_legal_capture_types = (str, int, float, bool, complex, bytes)
 
 
 def check_ast(a: ast.AST):
@@ -1014,7 +1014,9 @@ def check_ast(a: ast.AST):
 
     class ConstantTypeChecker(ast.NodeVisitor):
         def visit_Constant(self, node: ast.Constant):
-            if not isinstance(node.value, g_legal_capture_types):
+            # Exactly these types: an instance of a subclass (an IntEnum member, a str with its
+            # own repr, ...) has no literal a backend could read.
+            if type(node.value) not in g_legal_capture_types:
                 raise ValueError(f"Invalid constant type: {type(node.value)} for {ast.dump(node)}")
             self.generic_visit(node)
 
